@@ -39,13 +39,20 @@ Definition iderr (st : unit) : bool := false.
 Theorem id_codec_ok : zlib_stream_ok unit idstep iderr.
 Proof. split; [reflexivity | discriminate]. Qed.
 
-(* a corrupt stream after an undecodable line: one read raises zlib.error, two reads raise
+(* a corrupt stream after an undecodable line: one read raises zlib.error, three reads raise
    UnicodeDecodeError *)
-Definition bad_table : ztable := [(1, Some [255; 10]); (2, None)].
+Definition bad_table : ztable := [(1, Some [255; 10]); (2, Some []); (3, None)].
 Definition v2_header : bytes :=
   hdr_v2 ++ [10] ++ [35; 10] ++ [35; 10] ++ zlib_marker ++ [10].
 
 Lemma exception_class_depends_on_chunking :
-  load_exec bad_table [v2_header ++ [1; 2]] None = IRaise ZlibErr /\
-  load_exec bad_table [v2_header ++ [1]; [2]] None = IRaise UnicodeDecodeErr.
+  load_exec bad_table [v2_header ++ [1; 2; 3]] None = IRaise ZlibErr /\
+  load_exec bad_table [v2_header ++ [1]; [2]; [3]] None = IRaise UnicodeDecodeErr.
 Proof. split; vm_compute; reflexivity. Qed.
+
+Theorem exception_class_refuted :
+  exists (tab : ztable) (cs : list bytes), load_exec tab cs None <> load_exec tab [live cs] None.
+Proof.
+  exists bad_table, [v2_header ++ [1]; [2]; [3]].
+  intro H. vm_compute in H. discriminate.
+Qed.
